@@ -11,7 +11,9 @@ Streams
   textlines   theorem-hypothesis tie for C02_tag_lines: texts of several tag lines
   lint        a sample of grid files through `reuse lint --json`
   window      tag lines around the 4096-byte boundary, multi-byte characters on the cut, snippet marker before / after / absent
-  snippetfile files with a snippet marker: the marker straddling 4096*k, 8-20 KiB files with tags / ignore blocks on the boundaries
+  snippetfile files with a snippet marker: the marker straddling 4096*k and every buffer-size-like offset from 4 KiB to 1 MiB (powers of two,
+              odd multiples, decimal sizes), 8-20 KiB files with tags / ignore blocks on the boundaries
+  notations   lines holding two copyright notations, the lower-ranking one (word, sign) to the left of the notice proper
   parseerror  an unparseable expression anywhere in the file => the file contributes nothing; the converse shape
   decode      decoded_text_from_binary against the model's UTF-8 decoder on random byte strings
   smallenum   exhaustive small-alphabet lines `<pre> TAG <value> <trail>`
@@ -706,6 +708,19 @@ class LintStream(Stream):
 
 
 FILL_ASCII = "x = 1  # filler line\n"
+
+# Offsets at which a reader that works through a file piece by piece could cut it: every power of two from 4 KiB to 1 MiB and
+# sizes that are not powers of two (odd multiples of a page / of 64 KiB, decimal sizes).  The snippet marker may lie across
+# any of them (and across their multiples); the property knows no such offsets: "the whole file when it contains a marker".
+BOUNDS_POW = [1 << e for e in range(12, 21)]
+BOUNDS_ODD = [10000, 12288, 24576, 40960, 100000, 196608, 327680, 1000000]
+MODEL_MAX_BYTES = 140 * 1024        # larger files are judged by the oracle only (the driver would spend ~2 s per MiB)
+
+
+def model_infofile(data: bytes):
+    if len(data) > MODEL_MAX_BYTES:
+        return []
+    return ["infofile\t%s\t%s" % (enc_bytes(data), enc_list(bad_values(data)))]
 WIDE = ["é", "€", "😀", "ß", "中"]
 
 
@@ -714,7 +729,9 @@ class WindowStream(Stream):
     rule = ("files of 3-9 KiB: filler, then one tag line (licence or copyright, LF/CRLF) whose first byte lies at an offset from 3990 to "
             "4200 (every offset within 40 bytes of 4096 in the thorough tier), the filler ending in multi-byte characters so that the cut "
             "falls inside a character; the snippet marker absent, before the tag, after the tag, or itself straddling the cut; also a tag "
-            "line early in the file followed by > 4 KiB; oracle: a line wholly inside the first 4096 bytes is found, one starting at byte "
+            "line early in the file followed by > 4 KiB; and files of up to 1 MiB (3 MiB thorough) whose marker lies far behind the tag, "
+            "across one of 17 buffer-size-like offsets (every power of two from 4 KiB to 1 MiB, 10000, 12288, 24576, 40960, 100000, 196608, "
+            "327680, 1000000; thorough: their 2nd and 3rd multiples and every one of the 16 straddling positions); oracle: a line wholly inside the first 4096 bytes is found, one starting at byte "
             ">= 4096 is found iff the marker occurs anywhere, a line cut by the boundary is not judged; non-trivial = distinct "
             "(offset class, marker position, found)")
 
@@ -731,6 +748,14 @@ class WindowStream(Stream):
         # a tag early in the file, then a lot of text
         for marker in ("none", "after"):
             yield {"off": 0, "marker": marker, "kind": "L", "wide": "é", "eol": "\n"}
+        # the marker far behind the tag, lying across a buffer-size-like offset (sb - sd .. sb - sd + 17): 4 KiB .. 1 MiB
+        bounds = BOUNDS_POW + BOUNDS_ODD
+        for sb in bounds:
+            ks = (1, 2, 3) if tier == "thorough" else (1,)
+            for k in ks:
+                for sd in (range(0, 18) if tier == "thorough" and sb * k <= (1 << 18) else [rng.randint(1, 16)]):
+                    yield {"off": rng.randint(4096, 4300), "marker": "straddle", "kind": rng.choice("LC"), "wide": rng.choice(WIDE),
+                           "eol": rng.choice(["\n", "\n", "\r\n"]), "sb": sb * k, "sd": sd}
 
     def data(self, case):
         """bytes of the file, (start, end) byte offsets of the tag line, planted value"""
@@ -777,7 +802,8 @@ class WindowStream(Stream):
         if case["marker"] == "straddle":
             # the marker itself lies across byte 4096 (the snippet test reads the whole file, so it counts)
             m = ("# " + SNIPPET + eol).encode()
-            pos = 4096 - 9
+            # the marker word itself starts sd bytes before the offset sb (sd = 1..16: it lies across sb; 0 / 17: it touches sb)
+            pos = case["sb"] - case["sd"] - 2 if "sb" in case else 4096 - 9
             if len(body) < pos + len(m) + 10:
                 body += fb * ((pos + len(m) + 10 - len(body)) // len(fb) + 1)
             if not (start - len(m) < pos < end):
@@ -790,7 +816,7 @@ class WindowStream(Stream):
 
     def model_lines(self, case):
         data, start, end, v = self.data(case)
-        return ["infofile\t%s\t%s" % (enc_bytes(data), enc_list(bad_values(data)))]
+        return model_infofile(data)
 
     def model_out(self, case, outs):
         return model_info_out(outs[0])
@@ -822,11 +848,11 @@ class WindowStream(Stream):
     def nontrivial(self, case, impl_out):
         data, start, end, v = self.data(case)
         cls = "inside" if end <= 4096 else ("after" if start >= 4096 else "cut")
-        return (cls, case["marker"], impl_out != canon([], [], []))
+        return (cls, case["marker"], impl_out != canon([], [], [])) + ((case["sb"],) if "sb" in case else ())
 
     def show(self, case):
         data, start, end, v = self.data(case)
-        return {"case": case, "size": len(data), "tag_line_bytes": [start, end]}
+        return {"case": case, "size": len(data), "tag_line_bytes": [start, end], "marker_at": data.find(SNIPPET.encode())}
 
 
 # --------------------------------------------------------------------------
@@ -836,7 +862,11 @@ class WindowStream(Stream):
 class SnippetFileStream(Stream):
     name = "snippetfile"
     rule = ("(a) the snippet marker placed so that it straddles a multiple of 4096 bytes (marker starting 1..16 bytes before 4096*k, k = 1, 2, "
-            "3), the only tags lying beyond byte 4096; (b) files of 8-20 KiB with a snippet marker (at the start, in the middle or at the end): "
+            "3), the only tags lying beyond byte 4096; (a') the same for every buffer-size-like offset B from 4 KiB to 1 MiB (the nine powers of "
+            "two; 10000, 12288, 24576, 40960, 100000, 196608, 327680, 1000000; multiples 2B, 3B): marker starting 1..16 bytes before the offset "
+            "(lying across it) and, as controls, ending or starting exactly at it, or lying wholly behind 70 KB / 300 KB / 1 MiB (thorough: up to "
+            "3 MiB); marker line in six comment spellings, LF / CRLF; tags right after the marker, far behind it, between byte 4096 and the "
+            "marker, with or without a notice in the head; files above 140 KiB are judged by the oracle only; (b) files of 8-20 KiB with a snippet marker (at the start, in the middle or at the end): "
             "tag lines, REUSE-IgnoreStart / REUSE-IgnoreEnd markers and hidden tags placed so that they straddle or directly follow the 4096-byte "
             "boundaries (a tag line cut by a boundary, an ignore block spanning a boundary with a hidden tag right after it, the ignore marker "
             "itself cut by a boundary); oracle = generator ground truth: exactly the tags planted outside ignore blocks are reported; "
@@ -845,10 +875,29 @@ class SnippetFileStream(Stream):
     IGN_S = "REUSE-IgnoreStart"
     IGN_E = "REUSE-IgnoreEnd"
 
+    LEADS = ["# ", "// ", "", "<!-- ", " * ", "\t# "]
+
     def cases(self, tier, rng):
         for k in (1, 2, 3):
             for d in range(1, 17):
                 yield {"plan": "marker-straddle", "k": k, "d": d}
+        # (a') the same across every buffer-size-like offset up to 1 MiB (thorough: their multiples up to 3 MiB, every position)
+        for B in BOUNDS_POW + BOUNDS_ODD:
+            if tier == "thorough":
+                combos = [(k, d) for k in (1, 2, 3) for d in range(0, 18)] if B <= (1 << 16) else \
+                         [(k, d) for k in (1, 2, 3) for d in sorted({0, 1, 8, 16, 17, rng.randint(2, 15), rng.randint(2, 15)})]
+            else:
+                combos = [(1, 1), (1, 16), (1, rng.randint(2, 15)), (1, rng.choice([0, 17]))]
+                if B <= (1 << 16):
+                    combos.append((rng.choice([2, 3]), rng.randint(1, 16)))
+            for k, d in combos:
+                yield {"plan": "straddle", "B": B, "k": k, "d": d, "lead": rng.choice(self.LEADS), "head": rng.random() < 0.3,
+                       "tags": rng.choice(["after", "after", "far", "before", "both"]), "gap": rng.randint(2, 3000),
+                       "eol": rng.choice(["\n", "\n", "\n", "\r\n"])}
+        # the marker wholly behind a large offset (a reader that stops looking after so many bytes)
+        for off in ([70000, 300000, (1 << 20) + 5000] if tier == "quick" else [5000, 70000, 140000, 300000, 600000, (1 << 20) + 5000, (1 << 21) + 77, 3 << 20]):
+            yield {"plan": "straddle", "B": off, "k": 1, "d": -rng.randint(3, 60), "lead": rng.choice(self.LEADS), "head": rng.random() < 0.5,
+                   "tags": rng.choice(["after", "far", "before", "both"]), "gap": rng.randint(2, 3000), "eol": "\n"}
         n = 400 if tier == "thorough" else 60
         for i in range(n):
             nb = rng.randint(2, 4)
@@ -878,6 +927,14 @@ class SnippetFileStream(Stream):
                 off += 1
             if off > cur:
                 self.filler(off - cur)
+
+        def pad_exact(self, off):
+            gap = off - len(self.buf)
+            assert gap >= 0, (len(self.buf), off)
+            if gap == 1:
+                self.buf += b"\n"
+            else:
+                self.filler(gap)
 
         def tag(self, kind):
             self.n += 1
@@ -909,6 +966,38 @@ class SnippetFileStream(Stream):
             b.filler(200)
             b.line("# SPDX-SnippetEnd")
             return bytes(b.buf), b.lic, b.cpr
+        if case["plan"] == "straddle":
+            # the marker word starts d bytes before the offset k*B (d = 1..16: across it; 0 / 17: touching it; d < 0: behind it); all
+            # tags beyond the first 4 KiB except an optional one in the head; no ignore blocks: every planted tag is to be reported
+            at = case["B"] * case["k"] - case["d"]
+            lead = case["lead"].encode()
+            if case["head"]:
+                b.tag("C")
+            line_start = at - len(lead)
+            beyond = False
+            if case["tags"] in ("before", "both") and line_start > 4096 + 400:
+                b.pad_to(4096 + 2 + case["gap"] % max(2, min(3000, line_start - 4096 - 300)))
+                b.tag("L")
+                b.tag("C")
+                beyond = True
+            b.pad_exact(line_start)
+            b.buf += lead + SNIPPET.encode() + (b" -->" if lead.startswith(b"<!--") else b"") + b"\n"
+            if case["tags"] in ("after", "both") or (case["tags"] == "before" and not beyond):
+                b.pad_to(max(len(b.buf), 4096 + 2))
+                b.tag("C")
+                b.tag("L")
+            b.filler(case["gap"])
+            if case["tags"] == "far":
+                b.filler(5000)
+                b.tag("L")
+                b.tag("C")
+            b.line("# SPDX-SnippetEnd")
+            data = bytes(b.buf)
+            if case["eol"] != "\n":
+                # CRLF: keep the marker's offset (the bytes before it are left alone), later line ends become CRLF
+                data = data[:at] + data[at:].replace(b"\n", case["eol"].encode())
+            assert data.find(SNIPPET.encode()) == at, (data.find(SNIPPET.encode()), at)
+            return data, b.lic, b.cpr
         rng = random.Random(case["seed"])
         if case["marker"] == "start":
             b.line("# " + SNIPPET)
@@ -967,7 +1056,7 @@ class SnippetFileStream(Stream):
 
     def model_lines(self, case):
         data, lic, cpr = self.build(case)
-        return ["infofile\t%s\t%s" % (enc_bytes(data), enc_list(bad_values(data)))]
+        return model_infofile(data)
 
     def model_out(self, case, outs):
         return model_info_out(outs[0])
@@ -986,6 +1075,8 @@ class SnippetFileStream(Stream):
     def nontrivial(self, case, impl_out):
         if case["plan"] == "marker-straddle":
             return ("marker-straddle", case["k"], case["d"])
+        if case["plan"] == "straddle":
+            return ("straddle", case["B"], case["k"], case["d"], case["tags"])
         return (tuple(case["scen"]), case["marker"])
 
     def show(self, case):
